@@ -168,6 +168,14 @@ def plan(ctx):
     for label, acts, conf, seed, skip in hdl.deviant_set(True, 0):
         if label.endswith('/stateless_invalid_ke'):
             out.append(('rfc_style_' + label.split('/')[1], None, conf, acts))
+    # honest peers whose configurations differ but are compatible: the responder picks something that is not the
+    # initiator's first choice (another key length, a narrower selector, one of two protect entries, no PFS)
+    compatible = ('b_narrower_port', 'a_wider_subnet', 'b_other_child_encr', 'b_ike_prf_subset', 'b_two_protect',
+                  'a_pfs_b_none', 'b_short_lifetime')
+    for label, conf in hdl.ASYM_CONFS:
+        if label in compatible:
+            for s_ in (('new_child', 'rekey_child', 'rekey_ike') if not ctx.quick() else ('new_child',)):
+                out.append(('asym_' + label, None, conf, s_))
     for name, ips, conf in fam:
         scens = SCEN if (not ctx.quick() or name in ('default', 'sha512_ecp384_pfs')) else ['handshake', 'rekey_child',
                                                                                           'rekey_ike']
